@@ -34,6 +34,7 @@ type AssertSpec struct {
 	Ordinal int
 	Cl      *Clause
 	Assume  bool // unchecked assumption (listed in the evidence) instead of an obligation
+	Label   string // `label L at call X#k`: snapshot of the state before the call, usable as at(L, e)
 }
 
 type FuncSpec struct {
@@ -85,7 +86,7 @@ type PkgSpec struct {
 
 var clauseKeywords = map[string]bool{
 	"use": true, "func": true, "props": true, "requires": true, "ensures": true, "modifies": true,
-	"loop": true, "invariant": true, "decreases": true, "flags": true, "ghost": true, "assert": true, "assume": true, "bind": true, "table": true, "define": true,
+	"loop": true, "invariant": true, "decreases": true, "flags": true, "ghost": true, "assert": true, "assume": true, "label": true, "bind": true, "table": true, "define": true,
 }
 
 func splitLabel(kw string) (string, string) {
@@ -228,6 +229,18 @@ func parseContractFile(path, pkgPath string, ps *PkgSpec) error {
 				}
 				curLoop = &LoopSpec{}
 				cur.Loops[k] = curLoop
+			case "label":
+				// label L at call callee#k
+				fs := strings.Fields(rest)
+				if len(fs) != 4 || fs[1] != "at" || fs[2] != "call" {
+					return fmt.Errorf("%s:%d: label L at call <callee>#<k>", path, lineNo)
+				}
+				as := &AssertSpec{Label: fs[0], Callee: fs[3], Cl: &Clause{File: path, Line: lineNo}}
+				if j := strings.Index(fs[3], "#"); j >= 0 {
+					as.Callee = fs[3][:j]
+					as.Ordinal, _ = strconv.Atoi(fs[3][j+1:])
+				}
+				cur.Asserts = append(cur.Asserts, as)
 			case "requires", "ensures", "modifies", "invariant", "decreases", "assert", "assume":
 				cl := &Clause{Label: label, Src: rest, File: path, Line: lineNo}
 				all = append(all, cl)
